@@ -803,6 +803,12 @@ func (c *EvalCtx) call(n *Node) Val {
 			}
 		}
 		return mkInt(cnt)
+	case "merge_options":
+		// the option functions handed to the last mergo.Merge call, sorted by name
+		if t, ok := c.st.Ghost["mergo-opts"].(Text); ok {
+			return t
+		}
+		return lit("(no merge)")
 	case "map_put":
 		// setup only: map_put(m, k, v) stores an entry in the scenario's initial state
 		m, ok := arg(0).(MapV)
@@ -868,6 +874,29 @@ func (c *EvalCtx) call(n *Node) Val {
 					}
 				}
 			default:
+				return tFalse
+			}
+		}
+		return tTrue
+	case "cmp_options_ignore":
+		// cmp_options_ignore(opts, "F", ...): every listed field is ignored by some option
+		sl, ok := arg(0).(SliceV)
+		if !ok {
+			specErr(n, "cmp_options_ignore: slice expected")
+		}
+		ignored := map[string]bool{}
+		for k := 0; k < sl.Len_; k++ {
+			if iv, ok := c.st.load(sl.Arr.sub(sl.Lo + k)).(Iface); ok {
+				if op, ok := iv.V.(Opaque); ok && strings.HasPrefix(op.Tag, "cmpopt:cmpopts.IgnoreFields:") {
+					for _, f := range strings.Split(strings.TrimPrefix(op.Tag, "cmpopt:cmpopts.IgnoreFields:"), ",") {
+						ignored[f] = true
+					}
+				}
+			}
+		}
+		for k := 1; k < len(n.Kids); k++ {
+			f, _ := arg(k).(Text).concrete()
+			if !ignored[f] {
 				return tFalse
 			}
 		}
@@ -973,6 +1002,18 @@ func (c *EvalCtx) call(n *Node) Val {
 			alts = append(alts, c.valEq(n, c.sel(n, c.st.load(sl.Arr.sub(sl.Lo+k)), "Name"), arg(1)))
 		}
 		return mkOr(alts...)
+	case "imports_count":
+		// imports_count(imports, "path"): how many elements have that QualifiedName
+		sl, ok := arg(0).(SliceV)
+		if !ok {
+			specErr(n, "imports_count: slice expected")
+		}
+		want := arg(1)
+		total := mkInt(0)
+		for k := 0; k < sl.Len_; k++ {
+			total = mkArith("+", total, mkIte(c.valEq(n, c.sel(n, c.st.load(sl.Arr.sub(sl.Lo+k)), "QualifiedName"), want), mkInt(1), mkInt(0)))
+		}
+		return total
 	case "imports_have":
 		// imports_have(imports, "path"): some element's QualifiedName is the path
 		sl, ok := arg(0).(SliceV)
